@@ -312,8 +312,8 @@ def key_ok(t):
         return False
     if k == 'sum':
         return all(key_ok(x) for x in t[2])
-    if k == 'wrap':
-        return t[1] == 'box' and key_ok(t[2])
+    if k == 'wrap':      # Ord / Hash delegate to the contents; `str` exists only behind such a wrapper
+        return t[1] in ('box', 'rc', 'arc', 'cow') and (key_ok(t[2]) or t[2] == ('text', 'str'))
     return False
 
 
